@@ -200,16 +200,19 @@ CmpDD(a, b) ==
     ELSE LET m == IF a.e # b.e THEN CmpInt(a.e, b.e) ELSE CmpDigits(a.ds, b.ds) IN a.s * m
 
 \* both concrete finite numbers
+\* infinities are ordinary values of the order (below / above every finite number, equal to themselves); NaN is outside it
+XRank(a) == IF a.f # "x" THEN 0 ELSE IF a.v = "inf" THEN 1 ELSE IF a.v = "-inf" THEN -1 ELSE 2
 CmpNum(a, b) ==
-    CASE IsQ(a) /\ IsQ(b) -> CmpQQ(a, b)
+    CASE a.f = "x" \/ b.f = "x" -> CmpInt(XRank(a), XRank(b))
+      [] IsQ(a) /\ IsQ(b) -> CmpQQ(a, b)
       [] IsQ(a) /\ IsD(b) -> CmpQD(a, b)
       [] IsD(a) /\ IsQ(b) -> -CmpQD(b, a)
       [] OTHER            -> CmpDD(a, b)
 
-\* does a (tree-form) value contain a non-finite number?  The order of NaN / infinities is outside the exact domain.
+\* does a (tree-form) value contain NaN?  NaN is outside the order (C11 is stated for non-NaN values).
 RECURSIVE HasNonFinite(_)
 HasNonFinite(v) ==
-    CASE v.t = "num" -> v.f = "x"
+    CASE v.t = "num" -> v.f = "x" /\ v.v = "nan"
       [] v.t = "array" -> \E i \in 1..Len(v.v) : HasNonFinite(v.v[i])
       [] v.t = "object" -> \E i \in 1..Len(v.v) : HasNonFinite(v.v[i].val)
       [] OTHER -> FALSE
